@@ -17,7 +17,7 @@ Pick(S, k) == CHOOSE x \in S : Cardinality({y \in S : y < x}) = k - 1       \* k
 LLSweep == UNION {{<<Pick(LA, i), Pick(LB, p[1]), Pick(LC, p[2])>>, <<Pick(LA, p[2]), Pick(LB, i), Pick(LC, p[1])>>,
                    <<Pick(LA, p[1]), Pick(LB, p[2]), Pick(LC, i)>>} : i \in 1..4, p \in Latin}
 Sweep == SweepInit(LLSweep, Rc2, LAMBDA L : {-L - 1, 2 * L + 1},
-                    LAMBDA L : {-3, -2, -1, 1, 2, 3, L - 2, L - 1, L + 1, 2 - L, 1 - L, -L - 1},
+                    LAMBDA L : {-3, -2, -1, 1, 2, 3, L - 1, L + 1, 1 - L, -L - 1},
                     {<<-1, 1>>}, {<<0, 0>>, <<1, 2>>})
 Diag == {d \in {-1, 0, 1} \X {-1, 0, 1} \X {-1, 0, 1} : Cardinality({q \in 1..3 : d[q] # 0}) >= 2}
 Corners == CornerInit(LL, Rc2, LAMBDA bx : {-1, 0} \X {-1, 0} \X {-1, 0}, Diag)
